@@ -447,6 +447,14 @@ class C07(Base):
         return w.probes.get("c07_nontrivial_member", 0) > 0
 
 
+def _cost_units(p):
+    """(uf, ub, wd, rd) as exact integers in units of the vector's common
+    denominator (ratios are what the period formula needs)."""
+    scale = O.cost_scale(p)
+    return tuple(int(Fraction(p[k]) * scale)
+                 for k in ("uf", "ub", "wd", "rd"))
+
+
 # ---------------------------------------------------------------------------
 # C13
 # ---------------------------------------------------------------------------
@@ -819,7 +827,11 @@ class C19(Base):
             "at 0, m, ..., (q-1)m with m the closed form of Aupy & Herrmann "
             "(2017) computed exactly, no DISK write in the reverse phase, "
             "every DISK checkpoint loaded exactly once, every segment "
-            "reversed with L + GW(L, c) forward steps; non-trivial = a group "
+            "reversed with L + GW(L, c) forward steps; 12% of the groups use "
+            "costs that are not exact in binary floating point, with "
+            "(wd+rd)/uf at least 1e-6 away from every integer so that the "
+            "closed form gives the same period for the rationals and for the "
+            "nearest doubles; non-trivial = a group "
             "member with at least two DISK checkpoints")
     ASSUMPTIONS = [
         "m = beta(c, t), t least with beta(c+1, t) > (wd+rd)/uf; cross-"
@@ -837,8 +849,17 @@ class C19(Base):
         c = rng.randint(1, self.CMAX[tier])
         while True:
             costs = draw_costs(rng, default_p=0.1)
-            m = O.period_closed_form(
-                c, *(O.to_units(costs[k]) for k in ("uf", "ub", "wd", "rd")))
+            if rng.random() < 0.12:
+                # costs not exact in binary floating point, kept away from
+                # the thresholds of the closed form ((wd+rd)/uf not within
+                # 1e-6 of an integer), so that the period is the same for the
+                # exact rationals and for the nearest doubles
+                costs = draw_costs_inexact(rng)
+                ratio = (Fraction(costs["wd"]) + Fraction(costs["rd"])) \
+                    / Fraction(costs["uf"])
+                if abs(ratio - round(ratio)) < Fraction(1, 10 ** 6):
+                    continue
+            m = O.period_closed_form(c, *_cost_units(costs))
             if m <= nmax:
                 break
         Ns = set()
@@ -861,8 +882,9 @@ class C19(Base):
                 continue
             p = s.cfg["p"]
             c, N = p["s"], s.N
-            m = O.period_closed_form(
-                c, *(O.to_units(p[k]) for k in ("uf", "ub", "wd", "rd")))
+            m = O.period_closed_form(c, *_cost_units(p))
+            if not O.costs_exact_in_binary(p):
+                w.probe("c19_inexact_costs")
             writes_fwd, writes_rev, loads = [], [], {}
             for (a, phase, adj, pno, fwd) in s.machine.log:
                 if a[0] == "Forward" and a[5] == "DISK":
